@@ -72,7 +72,8 @@ CFG = {
             "storage command (ZRANGEBYSCORE / MULTI-EXEC granularity) with clock ticks and a consumer death before/after a command; every probe "
             "carries a unique port (identity), ready times are pairwise distinct (Redis orders equal scores by member text); compared: command "
             "trace, returned batches and expired counts, raw probes:* keys; oracle on the implementation's outputs: conservation of probes, "
-            "at-most-once, batch size, not-early/not-late, never-queued, batch order (every returned batch sorted by ready time; a violation is "
+            "at-most-once, batch size, not-early/not-late, never-queued, WHICH probes vanished (each vanished probe is attributable to a consumer's expired count: "
+            "ready and past its expiry at that consumer's clock - no unexpired probe vanishes), batch order (every returned batch sorted by ready time; a violation is "
             "classified late-past-ready = regression of PopMany's final sort, or batch-unsorted), keyspace consistency",
     "assumptions": [
         "a client reads the clock when it arrives at a storage command (the scheduler only moves the clock while every client is blocked at a command)",
@@ -80,7 +81,14 @@ CFG = {
         "equal ready times are ordered by UUID text in Redis: generated ready times are pairwise distinct (the model orders equal scores "
         "within a round by id; PopMany's final sort is stable, so ties keep fetch order: round by round, Redis order within a round)",
     ],
-    "trusted_base": COMMON_TRUSTED,
+    "trusted_base": COMMON_TRUSTED + [
+        "driver-implemented oracle semantics in lean/Swat4/Drv/C12.lean (not Model/ or Spec/ definitions): `oracle` computes everything from the case's "
+        "client specs and the implementation's timeline / results / dump - `timed` (clock value of every timeline entry), readyOf / expiryOfPayload (from the "
+        "penq specs), amo, known, neverQueued, conservation, sizeOk, timingOk, unsorted / latePast, and `vanishOk` with `assignVanished` (the probes that are "
+        "neither queued nor delivered, identified by port, can be distributed over the live consumers so that each gets exactly the number it counted as "
+        "expired, each such probe ready and strictly past its expiry by the clock at which that consumer's call finished; leftovers only with a consumer that "
+        "died, at most its batch size of them unexpired); only `consistentB` (keyspace consistency) is a Model definition",
+    ],
     "manifest": {
         "text": "Lean theorems over ALL event lists (any number of producers and consumers, any interleaving of storage commands, ticks, deaths "
                 "before/after a command) from any initial state with a consistent store and an empty probe queue, stated on a ghost-augmented system "
